@@ -77,7 +77,10 @@ type VC struct {
 	topVals  map[ssa.Value]Term
 	renderAllDecls bool
 	exitReach []Term
+	exitIdx   []int
+	exitPos   []string
 	inlineBudget int
+	skipAssume bool
 	specCalls int
 	binderDepth int // >0 while evaluating the body of a quantifier in a clause
 	skipped  []*Oblig
@@ -173,6 +176,10 @@ func (vc *VC) oblige(kind, fn, detail string, pos token.Position, goal Term, cla
 	}
 	o := &Oblig{Name: name, Kind: kind, Fn: fn, Detail: detail, Pos: pos, itemIdx: len(vc.items), pc: vc.reach, goal: goal, Clause: clause, Inlined: inlined}
 	vc.obligs = append(vc.obligs, o)
+	if vc.skipAssume {
+		// Houdini candidates may be false: their checks must not help (or vacuously discharge) later checks
+		return o
+	}
 	// later obligations may assume this one
 	vc.items = append(vc.items, Item{kind: itAssume, ob: o, text: fmt.Sprintf("(assert %s)", mkImplies(vc.reach, goal).S), quant: strings.Contains(goal.S, "(forall ") || strings.Contains(goal.S, "(exists ")})
 	return o
